@@ -77,6 +77,9 @@ func vsConcWorld(s *verifsim.Sim, dir string) {
 		if i > 0 && s.Choose(2, "same_hash") == 0 {
 			sqOf[h] = sqB
 		}
+		if s.Chance(1, 6, "empty_block") {
+			sqOf[h] = verifsq.Empty()
+		}
 	}
 	ntasks := s.Range(2, 4, "ntasks")
 	s.Cfg["recent_cache"], s.Cfg["serving_cache"], s.Cfg["nheights"], s.Cfg["ods_width"], s.Cfg["ntasks"], s.Cfg["writer_pref"] = recent, serving, nh, w, ntasks, s.WriterPref
@@ -307,6 +310,26 @@ func vsConcWorld(s *verifsim.Sim, dir string) {
 	}
 	s.Stall(3 * time.Minute)
 	s.Drain(4000)
+	// after every height was removed at rest, neither the store nor the caching store may still serve one
+	var still string
+	s.Do("observe-removed", func() {
+		for _, h := range heights {
+			if has, _ := st.HasByHeight(ctx, h); has {
+				still += fmt.Sprintf("Store.HasByHeight(%d)=true ", h)
+			}
+			if has, _ := cs.HasByHeight(ctx, h); has {
+				still += fmt.Sprintf("CachedStore.HasByHeight(%d)=true ", h)
+			}
+			if acc, err := cs.GetByHeight(ctx, h); err == nil {
+				_ = acc.Close()
+				still += fmt.Sprintf("CachedStore.GetByHeight(%d) serves ", h)
+			}
+		}
+	})
+	if still != "" {
+		s.Violate("c08-removed-block-still-served", "after-removal", "every height was removed after the run came to rest, yet: %s(ops: %s)", still, opNames)
+		return
+	}
 	// finalizers (os.File cleanups of files nobody closed explicitly, e.g. the size validation of an
 	// existing ODS file) run on a goroutine outside the bubble: wait for them in real time
 	before := verifsim.OpenFDsUnder(live)
